@@ -5,6 +5,7 @@ from ..flow import Index
 from ..tables import *  # noqa
 from .. import builders, semterm
 from ..semterm import norm, fmt, Opaque
+from .. import norm as norm_
 from .c02 import binding_of_pat
 
 P = "patronus::btor2::parse::Parser::"
@@ -296,27 +297,35 @@ def literals(ctx):
             if c.get("k") == "mcall" and callee(c) == P + "get_bv_width" and tok_index(c["args"][1]) == 2:
                 width_id = i
     ctx.inst("R08.2", "parse_format:width-from-sort", width_id is not None, f["span"], "the literal's width must come from get_bv_width(tokens[2])")
-    want = {"const": 2, "constd": 10, "consth": 16}
-    for op, radix in want.items():
+    # the function specialised to each literal operator: (value built, tokens consumed)
+    base_leaf = make_leaf()
+    p_op = (param_ids(f) + [None] * 4)[3]           # parse_format(&mut self, line, tokens, op)
+    ex = semterm.Extractor(defs, None, transparent, passthrough)
+
+    def leaf(n, env):
+        if n.get("k") == "mcall" and callee(n) == P + "parse_bv_lit_str" and len(n["args"]) == 4:
+            k_ = tok_index(n["args"][1])
+            if k_ is not None:
+                return ("parse_lit", ("tok", k_), ex.ev(n["args"][2], env), ex.ev(n["args"][3], env))
+        return base_leaf(n, env)
+    ex.leaf = leaf
+    want = {"const": ("parse_lit", ("tok", 3), ("lit", 2), ("sortwidth", 2)), "constd": ("parse_lit", ("tok", 3), ("lit", 10), ("sortwidth", 2)),
+            "consth": ("parse_lit", ("tok", 3), ("lit", 16), ("sortwidth", 2)), "zero": ("zero", ("sortwidth", 2)), "one": ("one", ("sortwidth", 2))}
+    for op, wterm in want.items():
         arm = arms.get(op)
-        ok = False
         shown = None
-        if arm:
-            b = strip_try(peel_block(arm["body"]))
-            shown = show(b)
-            ok = b.get("k") == "mcall" and callee(b) == P + "parse_bv_lit_str" and tok_index(b["args"][1]) == 3 and peel(b["args"][2]).get("v") == radix and is_local(b["args"][3], width_id)
-        ctx.inst("R08.2", "literal:%s" % op, ok, arm["sp"] if arm else f["span"], "`%s` must parse token 3 with radix %d at the declared width: %s" % (op, radix, shown), sample=shown)
-    for op, bname in (("zero", "zero"), ("one", "one")):
-        arm = arms.get(op)
         ok = False
-        shown = None
-        if arm:
-            b = strip_try(peel_block(arm["body"]))
-            if b.get("k") == "ctor" and b["args"]:
-                b = peel(b["args"][0])
-            shown = show(b)
-            ok = b.get("k") == "mcall" and callee(b) == builders.CTX + "::" + bname and is_local(b["args"][0], width_id)
-        ctx.inst("R08.2", "literal:%s" % op, ok, arm["sp"] if arm else f["span"], "`%s` must build Context::%s(declared width): %s" % (op, bname, shown), sample=shown)
+        if arm is not None:
+            try:
+                ex.spec = lambda e_, op=op: op if (p_op is not None and is_local(e_, p_op)) else None
+                got = ex.ev(f["body"], {})
+                shown = fmt(got)
+                wcount = 4 if op.startswith("const") else 3
+                ok = got == ("tuple", wterm, ("lit", wcount))
+            except Opaque as e:
+                shown = "UNRECOGNISED (%s: %s)" % (e.why, show(e.node)[:60])
+        what = ("parse token 3 with radix %d at the declared width" % wterm[2][1]) if op.startswith("const") else ("build Context::%s(declared width)" % op)
+        ctx.inst("R08.2", "literal:%s" % op, ok, arm["sp"] if arm else f["span"], "`%s` must %s and report %d tokens: %s" % (op, what, 4 if op.startswith("const") else 3, shown), sample=shown)
     g = ctx.fn("patronus", P + "parse_ones")
     txt = show(g["body"])
     ok = "BitVecValue::ones(width)" in txt and "bv_lit" in txt and any(callee(x) == P + "get_bv_width" and tok_index(x["args"][1]) == 2 for x in walk(g["body"]) if x.get("k") == "mcall")
@@ -341,12 +350,50 @@ def negation(ctx):
                 bs = [binding_of_pat(x) for x in d[2]["subs"]]
                 if len(bs) == 2 and bs[1]:
                     neg_id, id_id = bs[1][1], bs[0][1]
-    for n in walk(f["body"]):
-        if n.get("k") == "if" and "else" in n and is_local(n["cond"], neg_id):
-            t, e = peel(peel_block(n["then"])), peel(peel_block(n["else"]))
-            shown = show(n)
-            ok = t.get("k") == "mcall" and callee(t) == builders.CTX + "::not" and e.get("k") == "local" and is_local(t["args"][0], e["id"])
-    ctx.inst("R08.3", "get_expr_from_line_id:not-iff-negative", ok, f["span"], "an operand reference must be `if negated { ctx.not(signal) } else { signal }`: %s" % shown[:140], sample=shown[:140])
+    # every successful result: Context::not(signal) exactly when the id was negative, the signal itself otherwise
+    ix = Index(f["body"])
+
+    def leaves(e):
+        e = norm_.tail_value(e)
+        if e.get("k") == "if" and "else" in e:
+            return leaves(e["then"]) + leaves(e["else"])
+        if e.get("k") == "match":
+            out_ = []
+            for arm in e["arms"]:
+                out_ += leaves(arm["body"])
+            return out_
+        return [e]
+
+    def from_signal_map(x):
+        x = peel(x)
+        if x.get("k") != "local":
+            return False
+        d = defs.get(canon(x["id"])) or defs.get(x["id"])
+        if not d or d[0] not in ("arm", "letexpr", "let"):
+            return False
+        src = d[1]["scrut"] if d[0] == "arm" else d[1].get("init", {})
+        b_, ms_ = chain(src)
+        fp = field_path(b_)
+        return bool(fp) and fp[0] == "self" and fp[2] == ["signal_map"] and [m_[0] for m_ in ms_ if m_[0] not in ("copied", "cloned")] == ["get"] and is_local(ms_[0][1][0], id_id)
+    kinds = {"negated": 0, "plain": 0, "other": 0}
+    if neg_id is not None:
+        for okc in [n for n in ix.nodes if n.get("k") == "ctor" and callee(n).endswith("Result::Ok") and n.get("args")]:
+            for lf in leaves(okc["args"][0]):
+                if lf.get("ty") == "!":
+                    continue
+                conds = norm_.path_conditions(ix, lf)
+                neg_pos = any(is_local(c_, neg_id) and pol for c_, pol in conds)
+                neg_neg = any(is_local(c_, neg_id) and not pol for c_, pol in conds)
+                if lf.get("k") == "mcall" and callee(lf) == builders.CTX + "::not" and from_signal_map(lf["args"][0]) and neg_pos and not neg_neg:
+                    kinds["negated"] += 1
+                elif from_signal_map(lf) and neg_neg and not neg_pos:
+                    kinds["plain"] += 1
+                else:
+                    kinds["other"] += 1
+                    shown = show(lf)
+    ok = kinds["negated"] >= 1 and kinds["plain"] >= 1 and kinds["other"] == 0
+    shown = shown or str(kinds)
+    ctx.inst("R08.3", "get_expr_from_line_id:not-iff-negative", ok, f["span"], "an operand reference must be Context::not(signal) exactly when the id is negative, the signal itself otherwise: %s" % shown[:140], sample=str(kinds))
     for g_ in ("get_tpe_from_id", "get_state_from_id"):
         g = ctx.fn("patronus", P + g_)
         gdefs = local_defs(g)
@@ -390,42 +437,65 @@ def init_next(ctx):
     f = ctx.fn("patronus", P + "parse_state_init_or_next")
     ix = Index(f["body"])
     defs = local_defs(f)
+    p_flag = (param_ids(f) + [None] * 4)[3]          # parse_state_init_or_next(&mut self, line, cont, is_init_not_next)
     checks = [n for n in ix.nodes if n.get("k") == "mcall" and callee(n) == P + "check_type"]
     mods = [n for n in ix.nodes if n.get("k") == "mcall" and n["name"] == "modify_state"]
-    ctx.floor("R08.5", "modify_state calls in parse_state_init_or_next", len(mods), 2)
-    # the declared sort (token 2) is compared with the state's type, and the final expression's type with the declared sort
+    stores = []
+    for m in mods:
+        cl = resolve(m["args"][1])
+        stores += [(m, x) for x in walk(cl) if x.get("k") == "assign" and field_path(x["l"]) and field_path(x["l"])[2] and field_path(x["l"])[2][-1] in ("init", "next")]
+    ctx.floor("R08.5", "init/next stores in parse_state_init_or_next", len(stores), 2)
+
+    def classify(a):
+        """what a check_type operand denotes: the declared sort (token 2), the state's type, or the type of a local expression"""
+        a = norm_.value_source(ix, defs, a)
+        if a.get("k") == "mcall" and callee(a) == P + "get_tpe_from_id" and tok_index(a["args"][1]) == 2:
+            return ("declared",)
+        if a.get("k") == "mcall" and a["name"] == "get_type" and peel(a["recv"]).get("k") == "local":
+            return ("exprtype", canon(peel(a["recv"])["id"]))
+        b_, ms_ = chain(a)
+        if any(m_[0] == "type_check" for m_ in ms_):
+            # the type of the state's symbol
+            src = norm_.value_source(ix, defs, b_)
+            if any(x.get("k") == "mcall" and x["name"] == "get_state" for x in walk(src)) or (src.get("k") == "field" and src["name"] == "symbol"):
+                return ("state",)
+        return ("?",)
     kinds = set()
     final_checked = None
     for c in checks:
-        a0, a1 = peel(c["args"][0]), peel(c["args"][1])
-        s0, s1 = show(a0), show(a1)
         dom = all(ix.dominates(c, m) for m in mods) and isinstance(ix.parent.get(id(c)), dict) and ix.parent[id(c)].get("k") == "try"
         if not dom:
             continue
-        if "state_tpe" in s0 and s1 == "tpe":
+        k0, k1 = classify(c["args"][0]), classify(c["args"][1])
+        if {k0[0], k1[0]} == {"state", "declared"}:
             kinds.add("state-vs-declared")
-        if a0.get("k") == "mcall" and a0["name"] == "get_type" and s1 == "tpe":
-            kinds.add("expr-vs-declared")
-            final_checked = local_id(a0["recv"])
+        for x, y in ((k0, k1), (k1, k0)):
+            if x[0] == "exprtype" and y[0] == "declared":
+                # the checked local must not be reassigned after the check
+                later = [a_ for a_ in ix.nodes if a_.get("k") in ("assign", "assignop") and is_local(a_["l"], x[1]) and not ix.precedes(a_, c)]
+                if not later:
+                    kinds.add("expr-vs-declared")
+                    final_checked = x[1]
     ctx.inst("R08.5", "init_next:state-type-vs-declared-sort", "state-vs-declared" in kinds, f["span"], "no dominating check_type(state type, declared sort)? before the state is modified")
     ctx.inst("R08.5", "init_next:expr-type-vs-declared-sort", "expr-vs-declared" in kinds, f["span"], "no dominating check_type(type of the assigned expression, declared sort)? before the state is modified: an init/next of the wrong sort would be attached")
-    # the expression stored is the one that was checked
-    for i, m in enumerate(mods):
-        cl = peel(m["args"][1])
-        stored = [x for x in walk(cl) if x.get("k") == "assign"]
-        ok = len(stored) == 1 and peel(stored[0]["r"]).get("k") == "ctor" and is_local(peel(stored[0]["r"])["args"][0], final_checked)
-        fld = field_path(stored[0]["l"])[2][-1] if stored and field_path(stored[0]["l"]) else "?"
-        the_if = [a for a in ix.ancestors(m) if a.get("k") == "if"]
-        flag_ok = False
-        if the_if:
-            in_then = contains(the_if[0]["then"], m)
-            flag_ok = show(peel(the_if[0]["cond"])) == "is_init_not_next" and ((fld == "init") == in_then)
-        ctx.inst("R08.5", "init_next:store#%d" % (i + 1), ok and flag_ok, m["sp"], "the state's %s must be set to the checked expression under the matching init/next flag: %s" % (fld, show(m)[:120]), sample=show(m)[:120])
+    # the expression stored is the one that was checked, in the field selected by the flag
+    for i, (m, st) in enumerate(stores):
+        r = peel(st["r"])
+        ok = r.get("k") == "ctor" and callee(r).endswith("Option::Some") and final_checked is not None and is_local(r["args"][0], final_checked)
+        fld = field_path(st["l"])[2][-1]
+        conds = norm_.path_conditions(ix, st)
+        pos = any(is_local(c_, p_flag) and pol for c_, pol in conds)
+        neg = any(is_local(c_, p_flag) and not pol for c_, pol in conds)
+        flag_ok = (pos and not neg) if fld == "init" else (neg and not pos)
+        ctx.inst("R08.5", "init_next:store#%d" % (i + 1), ok and flag_ok, st["sp"], "the state's %s must be set to the checked expression under the matching init/next flag: %s" % (fld, show(m)[:120]), sample=show(st)[:120])
     # array lifting only for init with a bit-vector operand on an array state
     lifts = [n for n in ix.nodes if n.get("k") == "mcall" and callee(n) == builders.CTX + "::array_const"]
     for l in lifts:
-        ifs = [a for a in ix.ancestors(l) if a.get("k") == "if" and contains(a["then"], l)]
-        cs = show(ifs[0]["cond"]) if ifs else ""
-        ok = "is_init_not_next" in cs and "bv_assigned_to_array" in cs
-        idx_ok = "get_array_index_width" in show(l["args"][1]) and "state_tpe" in show(l["args"][1])
-        ctx.inst("R08.5", "init_next:array-lifting", ok and idx_ok, l["sp"], "a bit-vector may be lifted to a constant array only for `init` of an array state, with the state's index width: %s under `%s`" % (show(l)[:100], cs))
+        conds = norm_.path_conditions(ix, l)
+        has_flag = any(is_local(c_, p_flag) and pol for c_, pol in conds)
+        is_bv = any(pol and c_.get("k") == "mcall" and c_["name"] == "is_bit_vector" for c_, pol in conds)
+        is_arr = any(pol and c_.get("k") == "mcall" and c_["name"] == "is_array" and classify(c_["recv"])[0] == "state" for c_, pol in conds)
+        iw = norm_.value_source(ix, defs, l["args"][1])
+        ib, ims = chain(iw)
+        idx_ok = "get_array_index_width" in [m_[0] for m_ in ims] and classify(ib)[0] == "state"
+        ctx.inst("R08.5", "init_next:array-lifting", has_flag and is_bv and is_arr and idx_ok, l["sp"], "a bit-vector may be lifted to a constant array only for `init` of an array state, with the state's index width: %s under %s" % (show(l)[:100], [("" if p_ else "!") + show(c_)[:40] for c_, p_ in conds]))
